@@ -275,27 +275,29 @@ def ev_rr(start, stop, script):
 
 
 def ev_rr_table(start, width, lo=0, hi=None):
+    """unbiased_randrange(start, start+width) for every first draw r in [lo, hi): the entropy function serves the
+    bytes of r and then zeros, whatever the size of the individual requests; recorded: the result and the number of
+    bytes consumed"""
     sp = load_repo()
-    nbs = set()
-    res, nreq = [], []
-    nb_guess = max(1, (width.bit_length() + 7) // 8)
-    hi = 256 ** nb_guess if hi is None else hi
+    nb = max(1, (width.bit_length() + 7) // 8)
+    hi = 256 ** nb if hi is None else hi
+    res, used = [], []
     for r in range(lo, hi):
-        calls = []
+        stream = r.to_bytes(nb, "big")
+        pos = [0]
 
         def f(n):
-            calls.append(n)
-            if len(calls) > 50:
+            if pos[0] > 60 * nb:
                 raise EntropyExhausted("sampler does not terminate")
-            return r.to_bytes(n, "big") if len(calls) == 1 and r < 256 ** n else bytes(n)
+            got = stream[pos[0]:pos[0] + n]
+            pos[0] += n
+            return got + bytes(n - len(got))
         try:
-            res.append(sp.util.unbiased_randrange(start, start + width, f))
+            res.append(small(sp.util.unbiased_randrange(start, start + width, f)))
         except Exception:
             res.append(-1)
-        nreq.append(len(calls))
-        nbs.update(calls)
-    nb = nbs.pop() if len(nbs) == 1 else -1
-    return {"op": "rr_table", "start": start, "width": width, "nb": small(nb), "lo": lo, "hi": hi, "res": [small(v) for v in res], "nreq": nreq,
+        used.append(pos[0])
+    return {"op": "rr_table", "start": start, "width": width, "nb": nb, "lo": lo, "hi": hi, "res": res, "nreq": used,
             "w": max(1, (hi - lo) // 60)}
 
 
